@@ -28,6 +28,9 @@ type Case struct {
 	Choices    []int                  `json:"choices"`
 	Params     map[string]int         `json:"params"`
 	AllocLimit uint64                 `json:"alloc_limit"`
+	// Repeat > 1: directed repetition for counterexamples that depend on
+	// math/rand draws or wall-clock phase the native run cannot pin.
+	Repeat int `json:"repeat"`
 }
 
 type Result struct {
@@ -43,6 +46,20 @@ type Result struct {
 }
 
 func runCase(c Case) (res Result) {
+	n := c.Repeat
+	if n < 1 {
+		n = 1
+	}
+	for i := 0; i < n; i++ {
+		res = runOnce(c)
+		if res.Panic != "" || len(res.Failures) > 0 || res.AllocHit || res.Missing {
+			return
+		}
+	}
+	return
+}
+
+func runOnce(c Case) (res Result) {
 	res.Harness = c.Harness
 	f := vapi.Lookup(c.Harness)
 	if f == nil {
